@@ -5,9 +5,12 @@
   Full-strength statement (DESIGN §4 C01 `parse_gen`): for every tree `e` in the parser's image,
   `parse tbl (g tbl e ++ rest) = ok (e, rest)`.  It is FALSE of the current code (witnesses below), so what is proved
   is `parse_gen_partial`, for the faithful part of the image described by `Fits` (Proofs/ParseGen.lean): atoms, dotted
-  columns, Paren, unary - ~ NOT, and every binary class of the ladder tables, any nesting, any size, any dialect table.
-  Not covered by the theorem (model + correspondence + search only): range predicates, function calls; the parser-image
-  direction `parse ts = ok e → Fits e` (it fails exactly on the witnesses' shapes).
+  columns, Paren, unary - ~ NOT, every binary class of the ladder tables, the range predicates IS [NOT] NULL, [NOT] IN
+  (list), [NOT] BETWEEN, [NOT] LIKE (with the `negate` flag; `NOT IN` / `NOT BETWEEN` / `IS NOT NULL` under
+  NORMALIZE_NOT_NULL are `Not` nodes, covered through `Fits.not`; the Paren the parser inserts after a negated predicate
+  is an ordinary `Fits.paren`) and calls of unknown functions with argument lists — any nesting, size, dialect table.
+  Not proved: the parser-image direction `parse ts = ok e → Fits e ∨ <defect shape>` (checked per sample by the
+  correspondence stage: the model re-parses every printed tree and the harness counts same / different trees).
 -/
 import SqlglotModel.Proofs.ParseGen
 import SqlglotModel.Proofs.TimeFmt
@@ -62,6 +65,34 @@ example : ∃ B, Fits baseTables (.lad .outer baseTables.outer) B
     .ladLift (.spineBin "Add" "PLUS" "+" (.spineOperand (liftLad _ _ _ (.baseLower (.col _ _ (by decide)))))
       (by decide +kernel) (by decide +kernel) (by decide +kernel) (liftLad _ _ _ (.baseLower hp)))
   exact ⟨_, liftTop _ (.ladLift (.spineOperand hadd))⟩
+
+/-- non-vacuity at the range level: `x NOT LIKE F(1, y) ` (negate flag, function call with an argument list) and
+    `a IN (1, y) IS NULL` (IN list, chained predicate) are faithful trees of the base tables -/
+example : ∃ B, Fits baseTables (.lad .outer baseTables.outer) B
+    (.like true (.col [("x", false)]) (.func "F" [.num "1", .col [("y", false)]])) := by
+  have hargs : ∀ x ∈ [Expr.num "1", Expr.col [("y", false)]],
+      Fits baseTables (.lad .outer baseTables.outer)
+        (ladB baseTables.outer (ladB baseTables.mid (rangeBlocked baseTables ++ ladB baseTables.lower unaryBlocked))) x := by
+    intro x hx
+    simp only [List.mem_cons, List.not_mem_nil, or_false] at hx
+    rcases hx with rfl | rfl
+    · exact liftTop _ (atomLower _ (.num "1"))
+    · exact liftTop _ (atomLower _ (.col _ _ (by decide)))
+  exact ⟨_, liftTopR _ (.rLike true (.rOperand (atomLower _ (.col ("x", false) [] (by decide)))) (by decide +kernel) (by decide +kernel)
+    (atomLower _ (.func "F" _ (fun _ => _) (by simp) hargs (fun _ _ => by decide +kernel))) rfl rfl)⟩
+
+example : ∃ B, Fits baseTables (.lad .outer baseTables.outer) B
+    (.isNull false (.inList (.col [("a", false)]) [.num "1", .col [("y", false)]])) := by
+  have hargs : ∀ x ∈ [Expr.num "1", Expr.col [("y", false)]],
+      Fits baseTables (.lad .outer baseTables.outer)
+        (ladB baseTables.outer (ladB baseTables.mid (rangeBlocked baseTables ++ ladB baseTables.lower unaryBlocked))) x := by
+    intro x hx
+    simp only [List.mem_cons, List.not_mem_nil, or_false] at hx
+    rcases hx with rfl | rfl
+    · exact liftTop _ (atomLower _ (.num "1"))
+    · exact liftTop _ (atomLower _ (.col _ _ (by decide)))
+  exact ⟨_, liftTopR _ (.rIsNull false (.rIn _ (fun _ => _) (.rOperand (atomLower _ (.col ("a", false) [] (by decide))))
+    (by decide +kernel) (by simp) hargs (fun _ _ => by decide +kernel)) (by decide) (by intro h; cases h) rfl)⟩
 
 /-- KNOWN DEFECT (i), DESIGN §6: a negated range predicate as LEFT operand.  `a NOT IN (1) < b` parses to
     LT(Not(In)), prints as `NOT a IN (1) < b`, which re-parses as Not(LT(In, b)): the text is a fixpoint, the tree is not -/
